@@ -25,6 +25,8 @@ pub struct OP {
     ci_limited: Vec<(usize, Regex, Regex, Regex)>,
     vm: bool,
     letters: bool,
+    /// case_insensitive(true).case_insensitive(false) and case_insensitive(false)...case_insensitive(true)
+    seq: (Regex, Regex),
 }
 
 fn letters_of(n: &Node) -> bool {
@@ -85,6 +87,13 @@ impl PatProp for Options {
         };
         let vm = engine::is_vm(&plain);
         st.class(if vm { "engine:VM" } else { "engine:Wrap" });
+        // the last call of a setter wins: true then false is the plain pattern, false then true the case-insensitive one
+        let tf = engine::build_with(pat, |b| { b.case_insensitive(true).case_insensitive(false); });
+        let ft = engine::build_with(pat, |b| { b.case_insensitive(false).backtrack_limit(5).case_insensitive(true).backtrack_limit(1_000_000); });
+        let (tf, ft) = match (tf, ft) {
+            (Built::Ok(a), Built::Ok(b)) => (a, b),
+            _ => return Prep::Fail(Fail::new("option-build-error", "builder call sequences build like the single calls", "Err")),
+        };
         let mut limited = vec![];
         for lim in [0usize, 2, 6] {
             match engine::build_with(pat, |b| {
@@ -158,20 +167,20 @@ impl PatProp for Options {
                 }
             }
         }
-        Prep::Ready(OP { plain, opt_ci, flag_ci, neutral, tiny_dfa, limited, ci_limited, vm, letters: letters_of(n) })
+        Prep::Ready(OP { plain, opt_ci, flag_ci, neutral, tiny_dfa, limited, ci_limited, vm, letters: letters_of(n), seq: (tf, ft) })
     }
 
     fn eval(&self, _ctx: &RunCtx, p: &OP, _n: &Node, t: &str, pos: usize) -> Verdict {
         let a = engine::captures_from_pos(&p.opt_ci, t, pos);
         let b = engine::captures_from_pos(&p.flag_ci, t, pos);
+        let c = engine::captures_from_pos(&p.plain, t, pos);
+        let c_limit_err = matches!(&c, Out::Err(e) if e == "BacktrackLimitExceeded" || e == "StackOverflow");
         if a != b {
             return Verdict::Fail(Fail::new("case_insensitive-vs-(?i)", format!("(?i)P: {}", b.show()), format!("case_insensitive(true): {}", a.show())));
         }
-        let c = engine::captures_from_pos(&p.plain, t, pos);
         let d = engine::captures_from_pos(&p.neutral, t, pos);
         // a run that ends in a resource-limit error under the default limits may legitimately end in an
         // answer under the huge limit (that is what the limit is for): only answers are compared
-        let c_limit_err = matches!(&c, Out::Err(e) if e == "BacktrackLimitExceeded" || e == "StackOverflow");
         if c_limit_err {
             return Verdict::Skip("default-limit-error");
         }
@@ -183,6 +192,13 @@ impl PatProp for Options {
             if c != e {
                 return Verdict::Fail(Fail::new("dfa-size-limit-changes-result", format!("no options: {}", c.show()), format!("delegate_dfa_size_limit(1): {}", e.show())));
             }
+        }
+        let (stf, sft) = (engine::captures_from_pos(&p.seq.0, t, pos), engine::captures_from_pos(&p.seq.1, t, pos));
+        if stf != c && !c_limit_err {
+            return Verdict::Fail(Fail::new("setter-sequence", format!("no options: {}", c.show()), format!("case_insensitive(true).case_insensitive(false): {}", stf.show())));
+        }
+        if sft != a {
+            return Verdict::Fail(Fail::new("setter-sequence", format!("case_insensitive(true): {}", a.show()), format!("case_insensitive(false).backtrack_limit(5).case_insensitive(true).backtrack_limit(10^6): {}", sft.show())));
         }
         // a clone carries the options of the original
         let ac = engine::captures_from_pos(&p.opt_ci.clone(), t, pos);
